@@ -59,6 +59,7 @@ pub fn make_response(code: u16, variant: &str) -> Response {
             let (d, a) = v[1..].split_once('-').unwrap();
             let declared: u64 = d.parse().unwrap();
             let path = super::c06::scratch_dir().join(format!("c08c-{}-{}", std::process::id(), FILE_SEQ.fetch_add(1, std::sync::atomic::Ordering::SeqCst)));
+            let _ = std::fs::remove_file(&path);
             if a != "m" {
                 let n: usize = a.parse().unwrap();
                 std::fs::write(&path, (0..n).map(|i| b'a' + (i % 26) as u8).collect::<Vec<u8>>()).unwrap();
